@@ -186,7 +186,9 @@ double Integrate(std::function<double(double)> func, double a, double b, const s
 	}
 	else if(method == "Adaptive-Simpson")
 	{
-		double eps = Find_Epsilon(func, a, b, 1e-9);
+		// The adaptive rule accepts a panel when its error estimate is below the tolerance; the total error is bounded by four times
+		// the tolerance. A quarter of 1e-9 therefore gives the method's accuracy of 1e-9.
+		double eps = Find_Epsilon(func, a, b, 2.5e-10);
 		return sign * Integrate(func, a, b, eps);
 	}
 	else
